@@ -1,4 +1,4 @@
-(* AuthProofs.v — proofs about the admission decision of coq/Auth.v (property C15).
+(* AuthProofs.v — proofs about the acceptance decision of coq/Auth.v (property C15).
    Every theorem of the section [Spec] quantifies over the four trusted functions
    (base64url decoding, header reader, claims reader, HMAC), over every secret, every pair of clock
    readings and every request. *)
@@ -117,8 +117,8 @@ Section Spec.
   Notation parse := (parse_with_claims b64dec header_alg claims_of mac).
   Notation vtoken := (verify_access_token b64dec header_alg claims_of mac).
   Notation vauth := (verify_user_auth b64dec header_alg claims_of mac).
-  Notation admit2 := (admit2 b64dec header_alg claims_of mac).
-  Notation admit := (admit b64dec header_alg claims_of mac).
+  Notation accept2 := (accept2 b64dec header_alg claims_of mac).
+  Notation accept1 := (accept1 b64dec header_alg claims_of mac).
 
   (* not expired, not before its time, and issued at most [leeway] seconds in the future *)
   Definition time_ok (now1 now2 : Z) (c : claims) : Prop :=
@@ -205,43 +205,43 @@ Section Spec.
         rewrite NF, T, Hi. exact Hl.
   Qed.
 
-  (* ---- C15: admission, sound and complete *)
+  (* ---- C15: acceptance, sound and complete *)
 
-  Theorem admit2_iff : forall secret now1 now2 req,
-    admit2 secret now1 now2 req = true <->
+  Theorem accept2_iff : forall secret now1 now2 req,
+    accept2 secret now1 now2 req = true <->
     secret <> "" /\ valid_token secret now1 now2 (token_of req).
   Proof.
-    intros. unfold Auth.admit2, verify_user_auth.
+    intros. unfold Auth.accept2, verify_user_auth.
     destruct (is_empty secret) eqn:E.
     - apply is_empty_true in E. split; [discriminate|intros [H _]; contradiction].
     - apply is_empty_false in E. rewrite verify_access_token_iff. tauto.
   Qed.
 
-  Theorem admit_sound : forall secret now1 now2 req,
-    admit2 secret now1 now2 req = true ->
+  Theorem accept_sound : forall secret now1 now2 req,
+    accept2 secret now1 now2 req = true ->
     secret <> "" /\ valid_token secret now1 now2 (token_of req).
-  Proof. intros. apply admit2_iff. assumption. Qed.
+  Proof. intros. apply accept2_iff. assumption. Qed.
 
-  Theorem empty_secret_rejects_all : forall now1 now2 req, admit2 "" now1 now2 req = false.
+  Theorem empty_secret_rejects_all : forall now1 now2 req, accept2 "" now1 now2 req = false.
   Proof. reflexivity. Qed.
 
-  (* the empty token (no carrier at all) is never admitted *)
+  (* the empty token (no carrier at all) is never accepted *)
   Theorem no_token_rejected : forall secret now1 now2 req,
-    token_of req = "" -> admit2 secret now1 now2 req = false.
+    token_of req = "" -> accept2 secret now1 now2 req = false.
   Proof.
-    intros. unfold Auth.admit2, verify_user_auth, verify_access_token, parse_with_claims.
+    intros. unfold Auth.accept2, verify_user_auth, verify_access_token, parse_with_claims.
     rewrite H. simpl. destruct (is_empty secret); reflexivity.
   Qed.
 
-  (* rotation: a request admitted under two secrets carries ONE signature that is the MAC under both *)
+  (* rotation: a request accepted under two secrets carries ONE signature that is the MAC under both *)
   Theorem rotation : forall s1 s2 n1 n2 n1' n2' req,
-    admit2 s1 n1 n2 req = true -> admit2 s2 n1' n2' req = true ->
+    accept2 s1 n1 n2 req = true -> accept2 s2 n1' n2' req = true ->
     exists h p s hh sg,
       split3 (token_of req) = Some (h, p, s) /\ b64dec s = Some sg /\
       sg = mac hh s1 (h ++ "." ++ p) /\ sg = mac hh s2 (h ++ "." ++ p).
   Proof.
     intros s1 s2 n1 n2 n1' n2' req A1 A2.
-    apply admit2_iff in A1. apply admit2_iff in A2.
+    apply accept2_iff in A1. apply accept2_iff in A2.
     destruct A1 as [_ (h & p & s & hb & alg & hh & pb & c & sg & S3 & Bh & Ha & Sm & Bs & Hsg & _)].
     destruct A2 as [_ (h' & p' & s' & hb' & alg' & hh' & pb' & c' & sg' & S3' & Bh' & Ha' & Sm' & Bs' & Hsg' & _)].
     rewrite S3 in S3'. inversion S3'; subst h' p' s'.
@@ -253,10 +253,10 @@ Section Spec.
   (* hence, if the MAC separates the two keys on every message, nothing survives the rotation *)
   Corollary rotation_separates : forall s1 s2 n1 n2 n1' n2' req,
     (forall hh m, mac hh s1 m <> mac hh s2 m) ->
-    admit2 s1 n1 n2 req = true -> admit2 s2 n1' n2' req = false.
+    accept2 s1 n1 n2 req = true -> accept2 s2 n1' n2' req = false.
   Proof.
     intros s1 s2 n1 n2 n1' n2' req Sep A1.
-    destruct (Auth.admit2 b64dec header_alg claims_of mac s2 n1' n2' req) eqn:A2; [|reflexivity].
+    destruct (Auth.accept2 b64dec header_alg claims_of mac s2 n1' n2' req) eqn:A2; [|reflexivity].
     destruct (rotation _ _ _ _ _ _ _ A1 A2) as (h & p & s & hh & sg & _ & _ & E1 & E2).
     exfalso. apply (Sep hh (h ++ "." ++ p)). congruence.
   Qed.
@@ -264,18 +264,18 @@ Section Spec.
   (* precedence: a non-empty header token decides alone; query and cookie are not consulted *)
   Theorem precedence_header : forall secret now1 now2 r q c,
     token_from_header r <> "" ->
-    admit2 secret now1 now2 r = admit2 secret now1 now2 (mkRequest (authorization r) q c).
+    accept2 secret now1 now2 r = accept2 secret now1 now2 (mkRequest (authorization r) q c).
   Proof.
-    intros. unfold Auth.admit2.
+    intros. unfold Auth.accept2.
     rewrite (token_of_header r H).
     rewrite (token_of_header (mkRequest (authorization r) q c)); [reflexivity|exact H].
   Qed.
 
   Theorem precedence_query : forall secret now1 now2 r c,
     token_from_header r = "" -> val (query_token r) <> "" ->
-    admit2 secret now1 now2 r = admit2 secret now1 now2 (mkRequest (authorization r) (query_token r) c).
+    accept2 secret now1 now2 r = accept2 secret now1 now2 (mkRequest (authorization r) (query_token r) c).
   Proof.
-    intros. unfold Auth.admit2.
+    intros. unfold Auth.accept2.
     rewrite (token_of_query r H H0).
     rewrite (token_of_query (mkRequest (authorization r) (query_token r) c)); auto.
   Qed.
@@ -283,17 +283,17 @@ Section Spec.
   (* in particular: an invalid token in the header is not rescued by whatever travels elsewhere *)
   Corollary bad_header_not_rescued : forall secret now1 now2 a q c,
     token_from_header (mkRequest a None None) <> "" ->
-    admit2 secret now1 now2 (mkRequest a None None) = false ->
-    admit2 secret now1 now2 (mkRequest a q c) = false.
+    accept2 secret now1 now2 (mkRequest a None None) = false ->
+    accept2 secret now1 now2 (mkRequest a q c) = false.
   Proof.
     intros secret now1 now2 a q c H R.
     rewrite <- R. symmetry. apply (precedence_header secret now1 now2 (mkRequest a None None) q c H).
   Qed.
 
   (* one clock reading *)
-  Corollary admit_iff : forall secret now req,
-    admit secret now req = true <-> secret <> "" /\ valid_token secret now now (token_of req).
-  Proof. intros. apply admit2_iff. Qed.
+  Corollary accept_iff : forall secret now req,
+    accept1 secret now req = true <-> secret <> "" /\ valid_token secret now now (token_of req).
+  Proof. intros. apply accept2_iff. Qed.
 
 End Spec.
 
@@ -327,64 +327,57 @@ Definition ws_endpoint (body : list stmt) (ok : bool) : option (status * bool) :
 Definition mw_endpoint (body : list stmt) (ok : bool) : option (status * bool) :=
   run_middleware_body ok body.
 
-Definition ws_shape_check (body : list stmt) : bool :=
-  res_eqb (ws_endpoint body true) (ws_model true) && res_eqb (ws_endpoint body false) (ws_model false).
-Definition mw_shape_check (body : list stmt) : bool :=
-  res_eqb (mw_endpoint body true) (mw_model true) && res_eqb (mw_endpoint body false) (mw_model false).
-
 (* reflection: the two runs of the interpreter decide the shape for every verification result *)
-Lemma ws_shape_by_check : forall body, ws_shape_check body = true ->
+Lemma ws_shape_by_check : forall body,
+  res_eqb (ws_endpoint body true) (ws_model true) = true ->
+  res_eqb (ws_endpoint body false) (ws_model false) = true ->
   forall ok, ws_endpoint body ok = Some (ws_model ok).
-Proof.
-  intros body H ok. apply andb_true_iff in H. destruct H as [H1 H2].
-  destruct ok; apply res_eqb_eq; assumption.
-Qed.
+Proof. intros body H1 H2 ok. destruct ok; apply res_eqb_eq; assumption. Qed.
 
-Lemma mw_shape_by_check : forall body, mw_shape_check body = true ->
+Lemma mw_shape_by_check : forall body,
+  res_eqb (mw_endpoint body true) (mw_model true) = true ->
+  res_eqb (mw_endpoint body false) (mw_model false) = true ->
   forall ok, mw_endpoint body ok = Some (mw_model ok).
-Proof.
-  intros body H ok. apply andb_true_iff in H. destruct H as [H1 H2].
-  destruct ok; apply res_eqb_eq; assumption.
-Qed.
+Proof. intros body H1 H2 ok. destruct ok; apply res_eqb_eq; assumption. Qed.
 
 Section Wrappers.
   Variable b64dec : string -> option string.
   Variable header_alg : string -> option (option string).
   Variable claims_of : string -> option claims.
   Variable mac : hash -> string -> string -> string.
-  Notation admit2 := (admit2 b64dec header_alg claims_of mac).
+  Notation accept2 := (accept2 b64dec header_alg claims_of mac).
 
   Variables wsb mwb : list stmt.
   Hypothesis ws_shape : forall ok, ws_endpoint wsb ok = Some (ws_model ok).
   Hypothesis mw_shape : forall ok, mw_endpoint mwb ok = Some (mw_model ok).
 
-  (* the protected handler is entered exactly when the request is admitted, behind both wrappers *)
+  (* the protected handler is entered exactly when the request is accepted, behind both wrappers *)
   Theorem handler_iff : forall secret now1 now2 req,
     exists st1 e1 st2 e2,
-      ws_endpoint wsb (admit2 secret now1 now2 req) = Some (st1, e1) /\
-      mw_endpoint mwb (admit2 secret now1 now2 req) = Some (st2, e2) /\
-      (e1 = true <-> admit2 secret now1 now2 req = true) /\
-      (e2 = true <-> admit2 secret now1 now2 req = true).
+      ws_endpoint wsb (accept2 secret now1 now2 req) = Some (st1, e1) /\
+      mw_endpoint mwb (accept2 secret now1 now2 req) = Some (st2, e2) /\
+      (e1 = true <-> accept2 secret now1 now2 req = true) /\
+      (e2 = true <-> accept2 secret now1 now2 req = true).
   Proof.
     intros. rewrite ws_shape, mw_shape.
-    destruct (admit2 secret now1 now2 req); simpl;
+    destruct (accept2 secret now1 now2 req); simpl;
       do 4 eexists; repeat split; auto.
   Qed.
 
   (* a rejected request: 403 resp. 401, the handler is not entered; the decision itself is a
      function of (secret, clock, request) and writes nothing *)
   Theorem rejected_no_side_effect : forall secret now1 now2 req,
-    admit2 secret now1 now2 req = false ->
-    ws_endpoint wsb (admit2 secret now1 now2 req) = Some (St403, false) /\
-    mw_endpoint mwb (admit2 secret now1 now2 req) = Some (St401, false).
+    accept2 secret now1 now2 req = false ->
+    ws_endpoint wsb (accept2 secret now1 now2 req) = Some (St403, false) /\
+    mw_endpoint mwb (accept2 secret now1 now2 req) = Some (St401, false).
   Proof.
     intros. rewrite ws_shape, mw_shape, H. split; reflexivity.
   Qed.
 
-  Theorem admitted_enters : forall secret now1 now2 req,
-    admit2 secret now1 now2 req = true ->
-    ws_endpoint wsb (admit2 secret now1 now2 req) = Some (St101, true) /\
-    mw_endpoint mwb (admit2 secret now1 now2 req) = Some (St2xx, true).
+  Theorem accepted_enters : forall secret now1 now2 req,
+    accept2 secret now1 now2 req = true ->
+    ws_endpoint wsb (accept2 secret now1 now2 req) = Some (St101, true) /\
+    mw_endpoint mwb (accept2 secret now1 now2 req) = Some (St2xx, true).
   Proof.
     intros. rewrite ws_shape, mw_shape, H. split; reflexivity.
   Qed.
@@ -426,7 +419,7 @@ Qed.
 
 (* ------------------------------------------------------------------ a toy instance for the Examples *)
 
-(* identity "decoding", header bytes = the alg name, payload "e<d>" = exp digit seconds, MAC = key|msg *)
+(* identity "decoding", header bytes = the alg name, payload "e<d>" = exp digit seconds, MAC = bits:key|msg with dots replaced *)
 Definition toy_b64 (s : string) : option string := Some s.
 Definition toy_header (s : string) : option (option string) :=
   if String.eqb s "noalg" then Some None else if String.eqb s "{" then None else Some (Some s).
@@ -435,6 +428,11 @@ Definition toy_claims (s : string) : option claims :=
   else if String.eqb s "iat20" then Some (mkClaims None None (Some 20%Z))
   else if String.eqb s "{" then None
   else Some (mkClaims None None None).
+Fixpoint undot (s : string) : string :=
+  match s with
+  | EmptyString => EmptyString
+  | String c s' => String (if Ascii.eqb c dot then "_"%char else c) (undot s')
+  end.
 Definition toy_mac (h : hash) (k m : string) : string :=
-  (match h with SHA256 => "256:" | SHA384 => "384:" | SHA512 => "512:" end) ++ k ++ "|" ++ m.
-Definition toy_admit2 := Auth.admit2 toy_b64 toy_header toy_claims toy_mac.
+  (match h with SHA256 => "256:" | SHA384 => "384:" | SHA512 => "512:" end) ++ k ++ "|" ++ undot m.
+Definition toy_accept2 := Auth.accept2 toy_b64 toy_header toy_claims toy_mac.
